@@ -372,4 +372,85 @@ def r15_6(ctx):
     ctx.floor("R15.6", "storage index sites fed by a caller-supplied position", n, 1)
 
 
-RULES = [("R15.1", r15_a), ("R15.2", r15_2), ("R15.3", r15_3), ("R15.4", r15_4), ("R15.5", r15_5), ("R15.6", r15_6)]
+MUTATORS = ("pop", "push", "remove", "insert", "truncate", "clear", "swap_remove", "drain", "retain", "retain_mut", "append", "extend", "split_off", "set_len", "swap", "dedup", "resize", "shift_remove", "swap_remove_entry", "remove_entry")
+
+
+def r15_7(ctx):
+    """an operation the model rejects fails before it changes anything: in the facade mutators no check of a caller-supplied
+    position can fail after the storage was already changed"""
+    prog = ctx.prog()
+    n = 0
+    for f in prog.fns.values():
+        if f.crate != "sonic_rs" or f.kind == "Closure" or (f.self_adt or "") not in FACADES or f.argc < 2:
+            continue
+        if not f.locals[1]["ty"].startswith("&mut"):
+            continue
+        iparams = [i for i in range(2, f.argc + 1) if f.locals[i]["ty"] in ("usize",)]
+        if not iparams:
+            continue
+        muts = [(b, t) for b, t in f.calls() if t["callee"].rsplit("::", 1)[-1] in MUTATORS and t["args"] and ("Vec" in t["callee"] or "Array" in t["callee"] or "Object" in t["callee"] or "Map" in t["callee"] or "ptr::" in t["callee"])]
+        if not muts:
+            continue
+        n += 1
+        late = []
+        for mb, mt in muts:
+            after = set()
+            for x in f.succs(mb):
+                after |= f.reachable_from(x)
+            for b, t in f.calls():
+                if b not in after or (b == mb):
+                    continue
+                nm = t["callee"].rsplit("::", 1)[-1]
+                if nm in ("index", "index_mut") and len(t["args"]) > 1:
+                    l = op_local(t["args"][1])
+                    sl, leaves = backward_slice(f, [l]) if l is not None else (set(), [])
+                    if any(lf[0] == "param" and lf[1] in iparams for lf in leaves):
+                        late.append((mt, t, "an index by the caller's position"))
+                if "panicking::" in t["callee"] and not f.d["blocks"][b].get("cleanup"):
+                    # a panic that depends on the caller's position
+                    for sb, st in f.terms():
+                        if st["k"] == "switch" and f.dominates(sb, b):
+                            dl = op_local(st["discr"])
+                            sl, leaves = backward_slice(f, [dl]) if dl is not None else (set(), [])
+                            if any(lf[0] == "param" and lf[1] in iparams for lf in leaves) and sb in after:
+                                late.append((mt, t, "a panic on a test of the caller's position"))
+        key = short(f.id)
+        ctx.ob("R15.7", key, not late, f.loc(late[0][1]["ln"] if late else None),
+               "every check of the caller's position happens before the first change of the storage" if not late else
+               f"{late[0][2]} can fail after {late[0][0]['callee'].rsplit('::', 1)[-1]}() already changed the storage: the rejected operation leaves the array modified")
+    ctx.floor("R15.7", "facade mutators taking a position", n, 4)
+
+
+def r15_8(ctx):
+    """append moves the members of `other` into `self`: on a name both hold, other's value wins (as in the map model)"""
+    prog = ctx.prog()
+    f = prog.find("value::object::Object::append")
+    both = []
+    for b, t in f.calls():
+        ps = []
+        for a in t["args"]:
+            l = op_local(a)
+            sl, leaves = backward_slice(f, [l]) if l is not None else (set(), [])
+            ps.append({lf[1] for lf in leaves if lf[0] == "param"})
+        muts = [i for i, a in enumerate(t["args"]) if (t.get("argtys") or [""] * 9)[i].startswith("&mut")]
+        if any(1 in ps[i] for i in muts) and any(2 in ps[i] and 1 not in ps[i] for i in muts) and t["callee"].rsplit("::", 1)[-1] in ("swap", "replace", "take"):
+            both.append(t)
+    ctx.ob("R15.8", "append:operands-not-exchanged", not both, f.loc(both[0]["ln"] if both else None),
+           "self and other are never exchanged" if not both else "self and other are exchanged before the merge: on a name both objects hold, the old value of self survives")
+    ins = [(b, t) for g in prog.with_closures(f) for b, t in g.calls() if t["callee"].rsplit("::", 1)[-1] in ("insert", "extend", "append", "push")]
+    okd = bool(ins)
+    for b, t in [(b, t) for b, t in f.calls() if t["callee"].rsplit("::", 1)[-1] in ("insert", "extend", "append", "push")]:
+        l = op_local(t["args"][0])
+        sl, leaves = backward_slice(f, [l]) if l is not None else (set(), [])
+        recv = {lf[1] for lf in leaves if lf[0] == "param"}
+        srcs = set()
+        for a in t["args"][1:]:
+            l2 = op_local(a)
+            s2, lv2 = backward_slice(f, [l2]) if l2 is not None else (set(), [])
+            srcs |= {lf[1] for lf in lv2 if lf[0] == "param"}
+        if not (1 in recv and 2 not in recv and 2 in srcs):
+            okd = False
+    ctx.ob("R15.8", "append:other-into-self", okd, f.loc(), "members drained from `other` are inserted into `self`")
+
+
+RULES = [("R15.1", r15_a), ("R15.2", r15_2), ("R15.3", r15_3), ("R15.4", r15_4), ("R15.5", r15_5), ("R15.6", r15_6), ("R15.7", r15_7), ("R15.8", r15_8)]
